@@ -4573,6 +4573,136 @@ def r_to_nx(P, R):
 r_to_nx.NAME = 'R-ROLE(to_nx model)'
 
 
+def mdd_collect_model(P, R):
+    """`MDD.collect_garbage` interpreted on a small multi-valued diagram
+    for every choice of which of its top nodes are referenced from
+    outside.  C15: exactly the nodes no reference reaches go; the tables
+    stay inverse of each other; every count is the number of stored edges
+    plus the outside references; the numbers of the freed nodes are free;
+    the values of the referenced nodes are what they were; the memo is
+    emptied."""
+    import itertools
+    f = P.func('dd.mdd.MDD.collect_garbage')
+    stubs = ClassStubs(P, 'dd.mdd.MDD')
+    resolver = interp.ModuleEnv(P, 'dd.mdd', stubs)
+    dvars = {'x': {'level': 0, 'len': 3}, 'y': {'level': 1, 'len': 2}}
+    succ = {1: (2, None), 2: (1, 1, -1), 3: (0, 2, 1, -2),
+            4: (0, 1, -1, -1), 5: (0, 2, -2, 1), 6: (1, -1, 1)}
+    # (node 6 is referenced by nobody; 2 by 3, 5; the tops are 3, 4, 5, 6)
+    tops = [3, 4, 5, 6]
+    points = list(itertools.product(range(3), range(2)))
+
+    def value(table, u, pt):
+        neg = False
+        while abs(u) != 1:
+            if u < 0:
+                neg = not neg
+            t = table[abs(u)]
+            u = t[1 + pt[t[0]]]
+        return (u > 0) != neg
+    prm = [p for p in f.params if p != 'self']
+    problems = dict()
+    n = 0
+    try:
+        for k in range(len(tops) + 1):
+            for kept in itertools.combinations(tops, k):
+                ref = {u: 0 for u in succ}
+                for u, t in succ.items():
+                    for x in t[1:]:
+                        if x is not None:
+                            ref[abs(x)] += 1
+                for u in kept:
+                    ref[u] += 1
+                live, todo = {1}, list(kept)
+                while todo:
+                    x = todo.pop()
+                    if x in live:
+                        continue
+                    live.add(x)
+                    todo += [abs(y) for y in succ[x][1:]]
+                for roots in (None, [u for u in tops if u not in kept]):
+                    n += 1
+                    obj = interp.Sym('mdd', {
+                        'vars': copy.deepcopy(dvars),
+                        '_level_to_var': None, '_succ': dict(succ),
+                        '_pred': {t: u for u, t in succ.items()},
+                        '_ref': dict(ref), '_max': 6, '_free': set(),
+                        '_ite_table': {(3, 1, -1): 3},
+                        'max_nodes': 1000})
+                    out, _ = interp.run_function(
+                        f.node, {'self': obj, prm[0]: (
+                            list(roots) if roots is not None else None)},
+                        stubs, resolver)
+                    what = (f'nodes {succ}, referenced {list(kept)}: '
+                            f'collect_garbage({roots})')
+                    if out[0] == 'raise':
+                        problems.setdefault('raises', (
+                            f'{what}: raises {out[1]}'))
+                        continue
+                    a = obj.attrs
+                    if set(a['_succ']) != live:
+                        problems.setdefault('nodes', (
+                            f'{what}: the nodes {sorted(a["_succ"])} '
+                            f'stay; referenced or below a referenced '
+                            f'node are {sorted(live)}'))
+                        continue
+                    if a['_pred'] != {t: u for u, t in a['_succ'].items()}:
+                        problems.setdefault('tables', (
+                            f'{what}: the unique table {a["_pred"]} is '
+                            f'not the inverse of {a["_succ"]}'))
+                        continue
+                    want = {u: 0 for u in a['_succ']}
+                    for u, t in a['_succ'].items():
+                        for x in t[1:]:
+                            if x is not None:
+                                want[abs(x)] += 1
+                    for u in kept:
+                        want[u] += 1
+                    if a['_ref'] != want:
+                        problems.setdefault('counts', (
+                            f'{what}: the counts are {a["_ref"]}, the '
+                            f'stored edges and outside references give '
+                            f'{want}'))
+                        continue
+                    if not set(succ) - live <= set(a['_free']) or \
+                            set(a['_free']) & live:
+                        problems.setdefault('free', (
+                            f'{what}: the free numbers are '
+                            f'{sorted(a["_free"])}; freed were '
+                            f'{sorted(set(succ) - live)}'))
+                        continue
+                    if a['_ite_table']:
+                        problems.setdefault('memo', (
+                            f'{what}: the memo still holds '
+                            f'{a["_ite_table"]}'))
+                    for u in kept:
+                        if any(value(a['_succ'], u, p) != value(succ, u, p)
+                               for p in points):
+                            problems.setdefault('function', (
+                                f'{what}: the referenced node {u} does '
+                                'not have the values it had'))
+    except (interp.Unknown, KeyError) as e:
+        R.undecided('R-PAIR', f.qualname, 'collection model', str(e))
+        return None
+    for sub, msg in sorted(problems.items()):
+        R.violation('R-PAIR', f'mdd-collect-{sub}', f.qualname,
+                    'collect_garbage', msg, unit=f.unit.rel,
+                    line=f.lineno)
+    if not problems:
+        R.holds('R-PAIR', f.qualname,
+                f'collection model ({n} calls): exactly the unreferenced '
+                'nodes go, tables inverse, counts exact, freed numbers '
+                'free, memo emptied')
+    return n
+
+
+def r_mdd_collect(P, R):
+    n = mdd_collect_model(P, R)
+    if n is not None:
+        R.floor('R-PAIR calls of the MDD collection model', n, 20)
+r_mdd_collect.NAME = 'R-PAIR(MDD collection model)'
+
+
 def dot_model(P, R):
     """`dd.bdd._to_dot(roots, bdd)` interpreted (with `dd._utils.DotGraph`)
     on small managers: the graph it builds must show, for every node
